@@ -785,35 +785,29 @@ spif_dlinked_list_insert_at(spif_dlinked_list_t self, spif_obj_t obj, spif_listi
         /* Negative indexes go backward from the end of the list. */
         idx += self->len;
     }
-    REQUIRE_RVAL((idx + 1) > 0, FALSE);
+    REQUIRE_RVAL(idx >= 0, FALSE);
 
-    if (idx == 0 || SPIF_DLINKED_LIST_ITEM_ISNULL(self->head)) {
+    if (idx == 0) {
         return spif_dlinked_list_prepend(self, obj);
-    } else if (idx == (self->len - 1) || SPIF_DLINKED_LIST_ITEM_ISNULL(self->tail)) {
-        return spif_dlinked_list_append(self, obj);
-    } else if (idx > self->len) {
+    } else if (idx >= self->len) {
+        /* At or beyond the end:  pad with NULL placeholders as needed, then append. */
         for (i = self->len; i < idx; i++) {
             spif_dlinked_list_append(self, (spif_obj_t) NULL);
         }
         return spif_dlinked_list_append(self, obj);
     } else if (idx > (self->len / 2)) {
-        for (current = self->tail, i = self->len - 1; current->prev && i > idx; i--, current = current->prev);
-        if (i != idx) {
-            return FALSE;
-        }
+        for (current = self->tail, i = self->len - 1; i > idx; i--, current = current->prev);
     } else {
-        for (current = self->head, i = 1; current->next && i < idx; i++, current = current->next);
-        if (i != idx) {
-            return FALSE;
-        }
+        for (current = self->head, i = 0; i < idx; i++, current = current->next);
     }
+    /* "current" is the item now at position idx (0 < idx < len); the new item goes in front of it. */
     item = spif_dlinked_list_item_new();
     spif_dlinked_list_item_set_data(item, obj);
 
-    item->next = current->next;
-    item->prev = current;
-    current->next->prev = item;
-    current->next = item;
+    item->next = current;
+    item->prev = current->prev;
+    current->prev->next = item;
+    current->prev = item;
     self->len++;
     return TRUE;
 }
